@@ -29,6 +29,7 @@
 #include "cppClassTemplateParameter.h"
 #include "cppFunctionType.h"
 #include "cppConstType.h"
+#include "cppArrayType.h"
 #include "cppUsing.h"
 #include "cppBisonDefs.h"
 #include "cppParameterList.h"
@@ -1174,6 +1175,34 @@ handle_declaration(CPPDeclaration *decl, CPPScope *global_scope,
       } else {
         // This is not a function declaration; hence it gets added to the
         // _variables member.
+        if (_struct_type != nullptr &&
+            (inst->_storage_class & CPPInstance::SC_static) == 0) {
+          // A class cannot contain a non-static data member of its own type
+          // (the class is incomplete at that point).  Accepting one would
+          // make the type trait queries on the class recurse without end.
+          CPPType *member_type = inst->_type;
+          while (member_type != nullptr) {
+            if (member_type->as_const_type() != nullptr) {
+              member_type = member_type->as_const_type()->_wrapped_around;
+            } else if (member_type->as_array_type() != nullptr) {
+              member_type = member_type->as_array_type()->_element_type;
+            } else if (member_type->as_typedef_type() != nullptr) {
+              member_type = member_type->as_typedef_type()->_type;
+            } else {
+              break;
+            }
+          }
+          if (member_type == _struct_type) {
+            if (error_sink != nullptr) {
+              if (inst->_ident != nullptr) {
+                error_sink->error("member " + name + " has the incomplete type of its own class", inst->_ident->_loc);
+              } else {
+                error_sink->error("member " + name + " has the incomplete type of its own class");
+              }
+            }
+            return;
+          }
+        }
         _variables[name] = inst;
       }
 
